@@ -263,7 +263,10 @@ func (s *simSocket) Recvfrom(p []byte, flags int) (int, syscall.Sockaddr, error)
 	if nonNL {
 		return n, &syscall.SockaddrUnix{Name: "/spoof"}, nil
 	}
-	return n, &syscall.SockaddrNetlink{Family: syscall.AF_NETLINK, Pid: from}, nil
+	// the multicast group mask of the source address varies with the sender
+	// (bits 8.. of the simulated port id select it); only the port id says
+	// who sent the datagram.
+	return n, &syscall.SockaddrNetlink{Family: syscall.AF_NETLINK, Pid: from & 0xffff00ff, Groups: (from >> 8) & 0xff}, nil
 }
 
 func (s *simSocket) Close() error {
